@@ -50,6 +50,7 @@ func init() {
 			ruleReducer(r)
 			ruleReaderPath(r)
 			ruleWalkSkipsRoot(r)
+			ruleReaderBufferMinimum(r)
 			ruleCtxAge(r, []string{"simpledb.executeCompaction", "sstables.SuperSSTableReader.Scan", "sstables.SuperSSTableReader.ScanStartingAt", "sstables.SuperSSTableReader.ScanRange"})
 			ruleGetPrecedence(r)
 			ruleSentinelProducible(r, "simpledb", "sstables", "memstore")
